@@ -135,6 +135,7 @@ def env_level(ctx: Ctx):
         ctx.count(f"action-map-order:{order}")
         ctx.count("action-map-entries-listed-out-of-ascending-order", relisted)
         name = f"{name}[{order}]"
+        shape_seen: set = set()
         for ep in range(ctx.scale(2, 3) if order == "as-listed" else 1):
             ep_seed = rng.below(10 ** 6)
             if ep > 0:
@@ -166,7 +167,7 @@ def env_level(ctx: Ctx):
             if sib is not None:   # drive SIBLINGS apart: delete one file of a folder, stop one service of a host, one folder of two …
                 trans = sibs.diverging(amap, sib["first"]) or trans
                 raws = sibs.raw_divergers(sib["hosts"])
-            for step in range(ctx.scale(25, 120) if order == "as-listed" else (ctx.scale(30, 60) if sib is not None else ctx.scale(12, 60))):
+            for step in range(ctx.scale(25, 120) if order == "as-listed" else (ctx.scale(40, 70) if sib is not None else ctx.scale(12, 60))):
                 sim = env.game.simulation
                 if raws and rng.chance(1, 5):
                     q = rng.choice(raws)
@@ -195,6 +196,18 @@ def env_level(ctx: Ctx):
                                       + ("changed the simulation's described state" if before_state != after_state else
                                          f"gave a different mask at entries {[i for i in range(len(mask)) if int(mask[i]) != int(again[i])][:6]}"),
                                       {"mode": "mask-pure", **rp0, "seed": ep_seed, "actions": list(taken), "episode": ep, "step": step,
+                                       "action_index": 0})
+                if sib is not None:
+                    # live-tree shape oracle: every live service / application / NIC / folder / file is routed, under its name, to ITS OWN
+                    # request manager (a route whose func is anything else — a bound method, another component's manager — is a leaf or
+                    # a stranger to `check_valid`, whatever `__call__` makes of it); evaluated after run-time creations too
+                    for mm in rig.structure_mismatches(sim)[:3]:
+                        if json.dumps(mm, sort_keys=True) in shape_seen:
+                            continue   # one report per mismatch and variant (it stays in the tree for the rest of the episode)
+                        shape_seen.add(json.dumps(mm, sort_keys=True))
+                        ctx.violation({"kind": "live-route-shape", "what": mm.get("kind"), "level": mm.get("level")},
+                                      f"{name} ep{ep} step{step}: live request tree: {mm}",
+                                      {"mode": "mask-shape", **rp0, "seed": ep_seed, "actions": list(taken), "episode": ep, "step": step,
                                        "action_index": 0})
                 if sib is not None:   # how often the history really has siblings in DIFFERENT conditions when the mask is computed
                     groups: Dict[Any, set] = {}
@@ -225,8 +238,14 @@ def env_level(ctx: Ctx):
                                            "actions": list(taken), "episode": ep, "step": step, "action_index": i, "req": req})
                 # executed-action oracle: the mask bit computed immediately before REALLY executing the entry's request
                 fileops = [i for i, (ident, _) in amap.items() if ("file" in ident or "folder" in ident) and (sib is None or i >= sib["first"])]
-                for _ in range(ctx.scale(3, 6) if sib is None else 1):
+                rt_entries = [] if sib is None else [
+                    i for i, (ident, o) in amap.items() if i >= sib["first"] and (
+                        o.get("application_name") in sib["runtime_apps"].get(o.get("node_name"), []) or o.get("folder_name") == sibs.RT_FOLDER
+                        or o.get("file_name") == sibs.RT_FILE)]
+                for pick in range(ctx.scale(3, 6) if sib is None else 2):
                     i = rng.choice(fileops) if fileops and rng.chance(1, 2) else rng.below(n_actions)
+                    if sib is not None and pick == 1 and rt_entries:
+                        i = rng.choice(rt_entries)   # really execute an entry aimed at a target created during the episode
                     ident, opts = amap[i]
                     req = env.agent.action_manager.form_request(ident, opts)
                     bit = bool(sim._request_manager.check_valid(list(req), {}))
@@ -257,6 +276,11 @@ def env_level(ctx: Ctx):
                 a = rng.choice(trans) if trans and rng.chance(1, 2) else rng.below(n_actions)
                 if sib is not None and not rng.chance(1, 6):   # stay among the sibling entries
                     a = rng.choice(trans) if rng.chance(1, 2) else sib["first"] + rng.below(sib["added"])
+                if sib is not None and step % 2 == 0 and step // 2 < len(sib["prologue"]):
+                    # every second step of the first part: bring the run-time targets into being (create folder / files, INSTALL an
+                    # application the host does not have) — the steps in between and after see them in every state of their life
+                    a = sib["prologue"][step // 2]
+                    ctx.count("siblings:run-time-target-created:" + amap[int(a)][0])
                 # stepped-action oracle: the mask the USER holds (read before the step) against what `env.step(a)` does with
                 # action a — "executing it now" includes whatever the step does before the agent acts (pre_timestep)
                 v = _stepped_action_check(env, int(a))
@@ -328,7 +352,7 @@ def env_level(ctx: Ctx):
 
 def replay(rec: dict) -> bool:
     rp = rec["replay"]
-    if rp.get("mode") not in ("mask-env", "mask-exec", "mask-step", "mask-reset", "mask-pure"):
+    if rp.get("mode") not in ("mask-env", "mask-exec", "mask-step", "mask-reset", "mask-pure", "mask-shape"):
         return c05.replay(rec)
     # rebuild the environment with the recorded listing order of every action map, re-seed, re-take the recorded actions, and
     # compare the mask bit of the recorded entry with what __call__ does (stubbed handlers) at that state
@@ -366,6 +390,10 @@ def replay(rec: dict) -> bool:
             env.step(a)
     sim = env.game.simulation
     i = rp["action_index"]
+    if rp["mode"] == "mask-shape":
+        bad = rig.structure_mismatches(sim)
+        env.close()
+        return not bad
     if rp["mode"] == "mask-pure":
         m1 = [int(b) for b in env.action_masks()]
         s1 = json.dumps(sim.describe_state(), sort_keys=True, default=str)
